@@ -18,6 +18,8 @@ package main
 // under contract itself or executed inline (accessors such as Level(), RingQ(), AtLevel()).
 
 import (
+	"runtime/debug"
+	"os"
 	"fmt"
 	"go/types"
 	"sort"
@@ -245,6 +247,9 @@ func (s *bState) assume(t *Term) {
 		return
 	}
 	s.seen[k] = true
+	if t.IsFalse() && os.Getenv("LVC_DEBUG") != "" {
+		fmt.Fprintf(os.Stderr, "assume(false) at:\n%s\n", debug.Stack())
+	}
 	s.path = append(s.path, t)
 	// pin variables to constants
 	if t.Op == "eq" {
